@@ -36,6 +36,13 @@ def demo_cmd(seed, wt):
                 if m:
                     cmd = m.group(1).strip().rstrip('*/').strip()
                     cmd = cmd.replace('<wt>', wt)
+                    if '&&' not in cmd:
+                        m2 = re.search(r'-o\s+(\S+)', cmd)
+                        if m2:
+                            out = m2.group(1)
+                            cmd += ' && ' + (out if out.startswith('/') else './' + out)
+                        else:
+                            cmd += ' && ./a.out'
                     return cmd
     return None
 
